@@ -195,18 +195,27 @@ def offset_algebra(ctx):
     t = src(pc)
     ctx.check(P.has(pc, "$s = $c.lstrip()\n...\n$o += $c[:len($c) - len($s)].count('\\n')"), "code.strip-offset", db.where(pc), "leading blank lines stripped from a block are not added to the line offset", "offset += newlines stripped")
     ctx.check(P.has(pc, "$s = $c.lstrip()\n...\n$e = pyparser.parse($s, 'exec', lineno_offset=$o, **$k)"), "code.parse-args", db.where(pc), "PythonCode does not parse the stripped code with the offset", "parse(stripped, lineno_offset=...)")
-    al = db.func("pyparser._adjust_lineno")
+    # the helper that applies the Python error's line (or, where it was folded back, pyparser.parse itself)
+    if db.has("pyparser._adjust_lineno"):
+        al = db.func("pyparser._adjust_lineno")
+        offp, kwp, excp = pn(al, 1), pn(al, 2), pn(al, 0)
+    else:
+        al = db.func("pyparser.parse")
+        offp = "lineno_offset"
+        kwp = al.args.kwarg.arg if al.args.kwarg else "exception_kwargs"
+        hs_ = [h_ for t_ in walk_func(al) if isinstance(t_, ast.Try) for h_ in t_.handlers if h_.name]
+        excp = hs_[0].name if hs_ else "e"
     vals = keyed_values(al, "lineno")
     val = vals[-1] if vals else None
-    offp = pn(al, 1)
-    b_ = "%s.get('lineno')" % pn(al, 2)
-    x_ = "getattr(%s, 'lineno', None)" % pn(al, 0)
-    forms = [f_ % dict(b=b_, o=offp, x=x_) for f_ in ("%(b)s + %(o)s + %(x)s - 1", "%(b)s + %(o)s + (%(x)s - 1)", "%(b)s + %(x)s + %(o)s - 1", "%(b)s + %(x)s - 1 + %(o)s", "%(b)s + (%(o)s + %(x)s - 1)")]
+    b_ = "%s.get('lineno')" % kwp
+    forms = []
+    for x_ in ("getattr(%s, 'lineno', None)" % excp, "%s.lineno" % excp):
+        forms += [f_ % dict(b=b_, o=offp, x=x_) for f_ in ("%(b)s + %(o)s + %(x)s - 1", "%(b)s + %(o)s + (%(x)s - 1)", "%(b)s + %(x)s + %(o)s - 1", "%(b)s + %(x)s - 1 + %(o)s", "%(b)s + (%(o)s + %(x)s - 1)")]
     okf = bool(vals) and all(any(P.matches(resolve_deep(al, v_), f_) for f_ in forms) for v_ in vals)
     val = src(val) if val is not None else None
     ctx.check(okf, "adjust.formula", db.where(al), "reported line is %s, expected base + offset + parsed - 1" % val, "base + offset + parsed - 1")
     pp = db.func("pyparser.parse")
-    ctx.check(P.has(pp, "_adjust_lineno($e, lineno_offset, exception_kwargs)"), "adjust.used", db.where(pp), "pyparser.parse does not adjust the reported line", "adjusted from the Python error's line")
+    ctx.check(P.has(pp, "_adjust_lineno($e, lineno_offset, exception_kwargs)") or al is pp, "adjust.used", db.where(pp), "pyparser.parse does not adjust the reported line", "adjusted from the Python error's line")
 
 
 @rule("C11.start-captured", min_instances=6)
